@@ -606,12 +606,25 @@ func (e *Exec) scanCallWrites(st *State, call *ast.CallExpr, fp *footprint, info
 			ts = append(ts, modTarget{kind: "ghost", name: u.Name, keys: []leafKey{{u.Name, specSort(g.Type)}}})
 		}
 	}
+	var extra []modTarget
 	for i := range ts {
 		if ts[i].root != nil && mentionsDummy(ts[i].root, dummies) {
 			ts[i].root = nil
+			ts[i].elem = nil
+			// a pointer operand that could not be resolved may point into the heap or into a slice
+			switch ts[i].kind {
+			case "heap":
+				extra = append(extra, modTarget{kind: "mem", keys: ts[i].keys})
+			case "mem":
+				extra = append(extra, modTarget{kind: "heap", keys: ts[i].keys})
+			}
+		}
+		if ts[i].elem != nil && mentionsDummy(ts[i].elem, dummies) {
+			ts[i].elem = nil
 		}
 	}
 	fp.targets = append(fp.targets, ts...)
+	fp.targets = append(fp.targets, extra...)
 }
 
 func (e *Exec) evalRecvAtHead(st *State, sel *ast.SelectorExpr, sig *types.Signature, fp *footprint, info *types.Info) (v Value, ok bool) {
